@@ -49,23 +49,25 @@ template <class D> inline void pushm(Res& r, const Eigen::DenseBase<D>& m) {
       std::complex<double> z(m(i, j)); r.v.push_back(z.real()); r.v.push_back(z.imag()); }
 }
 
-inline void mssm_sm(MSSMNoFV_onshell& model) {
+// parameter set 1 also differs in the SM inputs: state frozen at the first call of the process
+// (function-local statics initialised from model-dependent values) must show up as history dependence
+inline void mssm_sm(MSSMNoFV_onshell& model, int p = 0) {
    const double Pi = 3.141592653589793;
-   model.set_alpha_MZ(0.0077552);
-   model.set_alpha_thompson(0.00729735);
-   model.set_g3(std::sqrt(4 * Pi * 0.1184));
-   model.get_physical().MFt = 173.34;
-   model.get_physical().MFb = 4.18;
-   model.get_physical().MFm = 0.1056583715;
-   model.get_physical().MFtau = 1.777;
-   model.get_physical().MVWm = 80.385;
-   model.get_physical().MVZ = 91.1876;
+   model.set_alpha_MZ(p ? 0.00781 : 0.0077552);
+   model.set_alpha_thompson(p ? 0.0072992 : 0.00729735);
+   model.set_g3(std::sqrt(4 * Pi * (p ? 0.1175 : 0.1184)));
+   model.get_physical().MFt = p ? 172.5 : 173.34;
+   model.get_physical().MFb = p ? 4.2 : 4.18;
+   model.get_physical().MFm = p ? 0.10566 : 0.1056583715;
+   model.get_physical().MFtau = p ? 1.77686 : 1.777;
+   model.get_physical().MVWm = p ? 80.4335 : 80.385;
+   model.get_physical().MVZ = p ? 91.19 : 91.1876;
 }
 
 inline MSSMNoFV_onshell mssm_gm2calc(int p) {
    MSSMNoFV_onshell model;
    const Eigen::Matrix<double,3,3> U = Eigen::Matrix<double,3,3>::Identity();
-   mssm_sm(model);
+   mssm_sm(model, p);
    model.set_TB(p ? 40 : 10);
    model.set_Ae(1, 1, p ? -300 : 0);
    model.set_Mu(p ? -420 : 350);
@@ -89,7 +91,7 @@ inline MSSMNoFV_onshell mssm_gm2calc(int p) {
 inline MSSMNoFV_onshell mssm_slha(int p) {
    MSSMNoFV_onshell model;
    const Eigen::Matrix<double,3,3> U = Eigen::Matrix<double,3,3>::Identity();
-   mssm_sm(model);
+   mssm_sm(model, p);
    const double s = p ? 1.02 : 1.0;
    model.get_physical().MSvmL = 5.18860573e+02 * s;
    model.get_physical().MSm(0) = 5.05095249e+02 * s;
@@ -121,7 +123,12 @@ inline thdm::Mass_basis thdm_basis(int p) {
       b.Delta_l << 0, 0.01, 0, 0.02, 0, 0.03, 0, 0.01, 0; }
    return b;
 }
-inline THDM thdm_build(int p) { SM sm; if (p) sm.set_ckm_from_wolfenstein(0.2257, 0.814, 0.135, 0.349); return THDM(thdm_basis(p), sm); }
+inline THDM thdm_build(int p) {
+   SM sm;
+   if (p) { sm.set_ckm_from_wolfenstein(0.2257, 0.814, 0.135, 0.349); sm.set_mw(80.4335); sm.set_mz(91.19); sm.set_mh(130.0);
+            sm.set_alpha_em_mz(1 / 128.9); sm.set_alpha_s_mz(0.1175); sm.set_mu(2, 172.5); sm.set_md(2, 4.2); sm.set_ml(1, 0.10566); sm.set_ml(2, 1.77686); }
+   return THDM(thdm_basis(p), sm);
+}
 
 inline void eval_mssm(const MSSMNoFV_onshell& m, Res& r) {
    push(r, calculate_amu_1loop(m)); push(r, calculate_amu_1loop_non_tan_beta_resummed(m));
@@ -147,7 +154,7 @@ template <class M> inline std::string text(const M& m) { std::ostringstream s; s
 // shared const models for the read-only ops (constructed by the harness before any thread starts)
 extern MSSMNoFV_onshell* shared_mssm[2];
 extern THDM* shared_thdm[2];
-extern std::string slha_text[2];
+extern std::string slha_text[3];
 
 typedef void (*OpFn)(int, Res&);
 struct Op { const char* name; OpFn fn; bool uses_shared; };
@@ -170,11 +177,16 @@ inline void O6(int p, Res& r) {
 }
 inline void O7(int p, Res& r) {
    GUARDED(
-      GM2_slha_io io; std::istringstream is(slha_text[p]); io.read_from_stream(is);
-      Config_options cfg; io.fill(cfg);
-      if (p == 0) { MSSMNoFV_onshell m; io.fill_slha(m); m.convert_to_onshell(); push(r, calculate_amu_1loop(m)); push(r, calculate_amu_2loop(m)); r.txt = text(m); }
-      else { MSSMNoFV_onshell m; io.fill_gm2calc(m); m.calculate_masses(); push(r, calculate_amu_1loop(m)); push(r, calculate_amu_2loop(m)); r.txt = text(m); }
-      push(r, cfg.loop_order); push(r, cfg.output_format);
+      // p = 0: example.slha; p = 1: the same file with every block scale moved to Q = 2000 and a different mu;
+      // both followed by the GM2Calc-format example
+      { GM2_slha_io io; std::istringstream is(slha_text[p ? 2 : 0]); io.read_from_stream(is);
+        Config_options cfg; io.fill(cfg);
+        MSSMNoFV_onshell m; io.fill_slha(m); m.convert_to_onshell(); push(r, calculate_amu_1loop(m)); push(r, calculate_amu_2loop(m)); push(r, m.get_scale()); r.txt = text(m);
+        push(r, cfg.loop_order); push(r, cfg.output_format); }
+      { GM2_slha_io io; std::istringstream is(slha_text[1]); io.read_from_stream(is);
+        Config_options cfg; io.fill(cfg);
+        MSSMNoFV_onshell m; io.fill_gm2calc(m); m.calculate_masses(); push(r, calculate_amu_1loop(m)); push(r, calculate_amu_2loop(m)); r.txt += text(m);
+        push(r, cfg.loop_order); push(r, cfg.output_format); }
    )
 }
 
@@ -193,6 +205,9 @@ inline std::string slurp(const std::string& path) { std::string s; FILE* f = std
 inline void init_shared(const std::string& repo) {
    slha_text[0] = slurp(repo + "/input/example.slha");
    slha_text[1] = slurp(repo + "/input/example.gm2");
+   slha_text[2] = slha_text[0];
+   for (size_t pos = 0; (pos = slha_text[2].find("Q= 1.00000000e+03", pos)) != std::string::npos; pos += 5) slha_text[2].replace(pos, 17, "Q= 2.00000000e+03");
+   { size_t pos = slha_text[2].find("4.89499929e+02"); if (pos != std::string::npos) slha_text[2].replace(pos, 14, "4.70000000e+02"); }
    for (int p = 0; p < 2; p++) { shared_mssm[p] = new MSSMNoFV_onshell(mssm_gm2calc(p)); shared_thdm[p] = new THDM(thdm_build(p)); }
 }
 } // namespace ops
